@@ -585,6 +585,15 @@ def sweep_c20(rng, tier):
                 for form in ["%s %s", "%s at %s", "%s um %s", "rev"]:
                     for _ in range(reps):
                         combos.append((rng.choice(ds), rng.choice(cs), ts, form, dn + " x " + cn))
+    # lexical adjacency stratum: every word of the small day families next to a form of every clock family, both orders, at a
+    # reference time late in the day (so that a clock that lost its day cannot land on the right day by coincidence)
+    late = (2020, 2, 28, 23, 59, 30)
+    dayf, clockf = c20_families(rng, late)
+    for dn in ("today", "tomorrow", "aftertomorrow", "yesterday", "eom/eoy"):
+        for dw in dayf[dn]:
+            for cn, cs in clockf.items():
+                for form in ("%s %s", "rev"):
+                    combos.append((dw, rng.choice(cs), late, form, "adjacency " + dn + " x " + cn))
     solo_cases = {}
     for d, c, ts, form, famname in combos:
         solo_cases[(d, ts, True)] = (d, ts, {})
